@@ -3345,8 +3345,10 @@ EB_API EbErrorType svt_av1_enc_set_parameter(
     EbErrorType return_error = (EbErrorType)verify_settings(
         enc_handle->scs_instance_array[instance_index]->scs_ptr);
 
-    if (return_error == EB_ErrorBadParameter)
+    if (return_error == EB_ErrorBadParameter) {
+        svt_release_mutex(enc_handle->scs_instance_array[instance_index]->config_mutex);
         return EB_ErrorBadParameter;
+    }
     set_param_based_on_input(
         enc_handle->scs_instance_array[instance_index]->scs_ptr);
 
